@@ -91,6 +91,27 @@ theorem C19_queryable : ∀ k ∈ producedKinds, Queryable k = true := by
   simp only [Queryable, h1, h2, Bool.true_and]
   simpa using h3
 
+/-- Two different produced kinds never share a binding variable of `generateProxyEnv`. -/
+def DistinctBindings (ks : List String) : Bool :=
+  ks.all (fun k₁ => ks.all (fun k₂ => k₁ == k₂ || varOfKind k₁ != varOfKind k₂))
+
+/-- C19 (several FROM items): the aliases of two FROM items of different produced kinds are bound through
+    different variables, so naming both kinds in one FROM list leaves each alias bound to its own accessor map
+    (the map literal of `generateProxyEnv` has one key per variable; a shared variable would be one key, and the
+    alias of the earlier item would be left unbound). -/
+theorem C19_bindings_distinct : DistinctBindings producedKinds = true := by decide
+
+theorem C19_two_kinds_bound (k₁ k₂ : String) (h₁ : k₁ ∈ producedKinds) (h₂ : k₂ ∈ producedKinds) (hne : k₁ ≠ k₂) :
+    varOfKind k₁ ≠ varOfKind k₂ ∧ Bindable k₁ = true ∧ Bindable k₂ = true := by
+  refine ⟨?_, C19_bindable k₁ h₁, C19_bindable k₂ h₂⟩
+  have h := C19_bindings_distinct
+  simp only [DistinctBindings, List.all_eq_true] at h
+  have h' := h k₁ h₁ k₂ h₂
+  simp only [Bool.or_eq_true, beq_iff_eq, bne_iff_ne] at h'
+  rcases h' with h' | h'
+  · exact absurd h' hne
+  · exact h'
+
 /-- Non-vacuity: the table is not empty and contains the kinds users query most. -/
 example : "method_declaration" ∈ producedKinds ∧ "BlockStmt" ∈ producedKinds ∧ producedKinds.length ≥ 30 := by decide
 
